@@ -722,6 +722,63 @@ def check_reader_options(ctx, c, w, origin, key, m2):
         fail(ctx, "C03/from_wire/raise_on_truncation", "the message carried by Truncated / returned differs from the plain parse", c)
 
 
+def check_call_forms(ctx, c, m, key, origin, ms, w, m2):
+    """the same call spelled differently must give the same answer: positional arguments, every keyring form, a second
+    rendering of the same object (also after a rendering that failed), continue_on_error on a clean wire, == / != coherence"""
+    # ---- positional spelling of from_wire / to_wire (a swap of two same-typed parameters shows here)
+    try:
+        mp = dns.message.from_wire(w, key, b"", False, origin, None, False, False, False, False, False, False)
+        if same_message(m2, mp, origin) is not None:
+            fail(ctx, "C03/from_wire/positional", "from_wire called with positional arguments (all options off) differs from the keyword call", c)
+        mq = dns.message.from_wire(w, key, b"", False, origin, None, False, True, False, False, False, False)
+        if mq.answer or mq.authority or mq.additional or len(mq.question) != len(m2.question):
+            fail(ctx, "C03/from_wire/positional", "the 8th positional argument of from_wire is question_only", c)
+        mo = dns.message.from_wire(w, key, b"", False, origin, None, False, False, True, False, False, False)
+        if any(len(r) > 1 for sx in (1, 2, 3) for r in mo.sections[sx]):
+            fail(ctx, "C03/from_wire/positional", "the 9th positional argument of from_wire is one_rr_per_rrset", c)
+        dns.message.from_wire(w + b"\0", key, b"", False, origin, None, False, False, False, True, False, False)
+    except Exception as e:  # noqa: BLE001
+        fail(ctx, "C03/from_wire/positional", f"positional call raised {type(e).__name__}: {e}", c)
+    if c["tsig"] is None:
+        try:
+            wp = m.to_wire(origin, ms, False, None, False, False, want_shuffle=False)
+            wl = m.to_wire(origin, ms, False, None, True, False, want_shuffle=False)
+            if wp != w or wl != struct.pack("!H", len(w)) + w:
+                fail(ctx, "C03/to_wire/positional", "to_wire(origin, max_size, multi, tsig_ctx, prepend_length, prefer_truncation) positionally differs from the keyword call", c)
+        except Exception as e:  # noqa: BLE001
+            fail(ctx, "C03/to_wire/positional", f"positional call raised {type(e).__name__}", c)
+    # ---- every form of keyring the signature admits
+    if key is not None and m2.tsig is not None:
+        forms = {"Key": key, "dict-of-Key": {key.name: key}, "dict-of-bytes": {key.name: key.secret}, "callable": lambda msg, name: key}
+        for what, kr in forms.items():
+            try:
+                mk_ = dns.message.from_wire(w, keyring=kr, origin=origin)
+                if same_message(m2, mk_, origin) is not None or not mk_.had_tsig:
+                    fail(ctx, "C03/from_wire/keyring-form", f"keyring given as {what}: parsed message differs", c)
+            except Exception as e:  # noqa: BLE001
+                fail(ctx, "C03/from_wire/keyring-form", f"keyring given as {what}: {type(e).__name__}: {e}", c)
+    # ---- the same object rendered again, also after a rendering that failed
+    _, wa = render(m, ms)
+    if wa != w:
+        fail(ctx, "C03/to_wire/not-idempotent", "rendering the same message object a second time gives different octets", c)
+    if len(w) > 600 and ms >= 65535:
+        l1, w1 = render(m, 512)
+        _, wb = render(m, ms)
+        if w1 is None and wb != w:
+            fail(ctx, "C03/to_wire/state-after-error", f"after a rendering that failed ({l1}) the same message renders differently", c)
+    # ---- continue_on_error on a wire that has no error
+    try:
+        mc = dns.message.from_wire(w, keyring=key, origin=origin, continue_on_error=True)
+        if mc.errors or same_message(m2, mc, origin) is not None:
+            fail(ctx, "C03/from_wire/continue_on_error", f"continue_on_error=True on a clean wire: {len(mc.errors)} errors / a different message", c)
+    except Exception as e:  # noqa: BLE001
+        fail(ctx, "C03/from_wire/continue_on_error", f"continue_on_error=True raised {type(e).__name__}", c)
+    # ---- == symmetric, != its negation
+    a, b = (m == m2), (m2 == m)
+    if a != b or (m != m2) == a or (m2 != m) == b or not (m2 == m2) or (m2 != m2):
+        fail(ctx, "C03/eq/incoherent", f"m == m2: {a}, m2 == m: {b}, m != m2: {m != m2}, m2 != m: {m2 != m}", c)
+
+
 def check_eq_discriminates(ctx, c, m, w, key):
     """Message.__eq__ (an observe point) must also say *no*: header fields and every section, in both directions"""
     _, m3 = parse(w, key=key)
@@ -753,12 +810,17 @@ def check_eq_discriminates(ctx, c, m, w, key):
 
 def eval_msg(ctx: Ctx, c: dict):
     pin_time()
-    m, key = mk_message(c)
+    try:
+        m, key = mk_message(c)
+    except Exception as e:  # noqa: BLE001 — every generated case is a legal message
+        fail(ctx, f"C03/construct/{type(e).__name__}", f"building the message objects raised {type(e).__name__}: {e}", c)
+        return
     origin = m.origin
     ms = c.get("max_size", 65535)
     line, w = render(m, ms)
     if c["tsig"] is not None and m.tsig is not None:
-        c = dict(c, tsig=tsig_case(m.tsig))  # the MAC/time the signer produced (abstract in the model)
+        made = tsig_case(m.tsig)  # only the MAC and the time are the signer's (abstract in the model); the rest is what was asked for
+        c = dict(c, tsig=dict(c["tsig"], mac=made["mac"], time=made["time"]))
     toks = msg_tokens(c)
     ctx.corr(f"c03.render {ms} 0 {toks}", line, c)
     cnt = (m.section_count(0), m.section_count(1), m.section_count(2), m.section_count(3))
@@ -816,6 +878,8 @@ def eval_msg(ctx: Ctx, c: dict):
         if d:
             fail(ctx, "C03/parse_render/value-differs", f"parsed message differs from the original: {d}", c)
         check_reader_options(ctx, c, w, origin, key, m2)
+        if zlib.adler32(w) % 2 == 0:
+            check_call_forms(ctx, c, m, key, origin, ms, w, m2)
         if not d and m2 == m and zlib.adler32(w) % 3 == 0:
             check_eq_discriminates(ctx, c, m, w, key)
         elif origin is None and all(r.name.is_absolute() for s in m.sections for r in s):
@@ -864,6 +928,20 @@ def eval_wire(ctx: Ctx, c: dict):
         got = "Truncated"
     except Exception as e:  # noqa: BLE001
         got = type(e).__name__
+    # continue_on_error: never raises once the header is read; no error reported exactly when the plain parse succeeds
+    try:
+        mc = dns.message.from_wire(w, origin=origin, one_rr_per_rrset=c["orr"], ignore_trailing=c["it"], continue_on_error=True)
+        coe = len(mc.errors)
+    except Exception as e:  # noqa: BLE001
+        mc, coe = None, type(e).__name__
+    if plain is None:
+        if coe != 0 or same_message(m2, mc, origin) is not None:
+            fail(ctx, "C03/from_wire/continue_on_error", f"the plain parse succeeds, continue_on_error=True gives {coe} errors / a different message", c)
+    elif isinstance(plain, dns.message.ShortHeader):
+        if coe != "ShortHeader":
+            fail(ctx, "C03/from_wire/continue_on_error", f"ShortHeader expected with continue_on_error=True, got {coe}", c)
+    elif isinstance(plain, dns.exception.DNSException) and (not isinstance(coe, int) or coe == 0):
+        fail(ctx, "C03/from_wire/continue_on_error", f"the plain parse raises {type(plain).__name__}, continue_on_error=True gives {coe!r} (errors expected, no exception)", c)
     tc = len(w) >= 12 and bool(w[2] & 0x02)
     if plain is None:
         want = "Truncated" if tc else "returned"
@@ -1248,7 +1326,7 @@ def gen_tsig(rng, ng, c):
     if kn == [b""]:
         kn = [b"k", b""]
     c["secret"] = rng.bytes(rng.choice([8, 16, 32])).hex()
-    return {"name": hexl(kn), "alg": hexl([rng.choice(TSIG_ALGS), b""]), "time": 0, "fudge": rng.choice([300, 1, 65535]),
+    return {"name": hexl(kn), "alg": hexl([rng.choice(TSIG_ALGS), b""]), "time": 0, "fudge": rng.choice([300, 1, 65535, 0]),
             "mac": "", "orig_id": rng.choice([c["id"], 0, 65535]), "error": 0, "other": rng.choice(["", "", "000000000001"])}
 
 
@@ -1639,6 +1717,29 @@ def gen_update_wire(rng):
     return hdr + b"".join(qs + pre + upd + add)
 
 
+def gen_bounds(rng):
+    """exact boundaries of the wire fields: 255-octet and 254-octet names (owner and inside RDATA), 63-octet labels, TTL 0 and
+    2^31-1, MX preference 0 / 65535, SOA integers 0 / 2^32-1, id 0 / 65535, payload 0 / 65535, option code 0 / 65535, empty
+    option and empty RDATA"""
+    def rr(name, rdtype, rds, ttl):
+        return {"name": hexl(name), "rdclass": 1, "rdtype": rdtype, "covers": 0, "deleting": None, "ttl": ttl, "rdatas": rds}
+    x63 = lambda ch: bytes([ch]) * 63
+    last = rng.choice([61, 60])                                # 64 + 64 + 64 + (last + 1) + 1 = 255 / 254 octets
+    long1 = [x63(97), x63(98), x63(99), bytes([100]) * last, b""]
+    long2 = [b"n", x63(98), x63(99), bytes([100]) * (last - 2), b""]   # shares a 63+last suffix with long1: compressed
+    T = [0, 2 ** 31 - 1]
+    an = [rr(long1, 2, [{"k": "n", "n": hexl(long2)}], rng.choice(T)),
+          rr(long2, 15, [{"k": "m", "p": rng.choice([0, 65535]), "n": hexl(long1)}], rng.choice(T)),
+          rr([b"s", b""], 6, [{"k": "s", "m": hexl(long1), "r": hexl([b""]), "i": [rng.choice([0, 2 ** 32 - 1]) for _ in range(5)]}], rng.choice(T)),
+          rr([b""], 65280, [{"k": "o", "b": ""}], 0)]
+    c = {"kind": "msg", "id": rng.choice([0, 65535]), "flags": rng.choice([0, 0x8000, 0x87EF]), "origin": None, "request_payload": 0, "pad": 0,
+         "sections": [[rr(long1, rng.choice([1, 255, 65535]), [], 0)], an, [], []],
+         "opt": {"ttl": rng.choice([0, 0xFFFFFFFF, 0x00FF0000]), "payload": rng.choice([0, 65535]),
+                 "options": [[rng.choice([65535, 65001]), ""], [65002, rng.bytes(rng.choice([0, 1, 255])).hex()]]} if rng.chance(3, 4) else None,
+         "tsig": None, "max_size": 65535}
+    return c
+
+
 def gen_straddle(rng, start, variant):
     """a message in which a fresh multi-label owner name begins at offset `start` (around 0x3FFF), so that some of its
     suffixes start at or before 16383 and others after, followed by owners and NS/MX targets sharing each suffix"""
@@ -1803,6 +1904,9 @@ def generate(ctx: Ctx, scale: int, rng):
     for i in range(n(6)):
         for variant in range(16):
             run_one(ctx, gen_rollback(rng, variant))
+    for i in range(n(16)):
+        run_one(ctx, gen_bounds(rng))
+        ctx.count("bounds")
     # UPDATE messages assembled from RRset objects: empty rrsets with arbitrary TTLs
     for i in range(n(120)):
         try:
